@@ -2358,10 +2358,9 @@ package gomatrixserverlib
 //@   calls ResolveStateConflicts@root the-conflicted-events-and-the-auth-events: conflicted == ret(splitConflictedUnconflicted, 0) && authEvents == root_authEvents && userIDForSender == root_userIDForSender
 //@   calls ResolveStateConflictsV2New@root the-versions-algorithm-and-all-state-sets: stateResAlgo == ret(GetRoomVersion, 0).StateResAlgorithm() && stateSets == root_stateSets && authEvents == root_authEvents && userIDForSender == root_userIDForSender && isRejectedFn == root_isRejectedFn
 
-// What is conflicted: per (type, state key) - several distinct events: all conflicted (every algorithm); a single
-// event: unconflicted in v1. NOT proved: the v2 / v2.1 rule for a single event (unconflicted only if it occurs in every
-// state set) - the inner loop's invariant needs "the list read from the map is older than what append allocates",
-// which the engine does not derive for slices stored in a map created by the function itself
+// What is conflicted: per (type, state key) - several distinct events: all conflicted (every algorithm), in their
+// order; a single event: unconflicted in v1; in v2 / v2.1 unconflicted only if it was counted once per state set (it is
+// in EVERY state set), else conflicted; nothing else is added and earlier results stay
 //@ func splitConflictedUnconflicted
 //@   property C10, C11
 //@   nosafety
@@ -2369,9 +2368,13 @@ package gomatrixserverlib
 //@   loop 2: invariant 0 <= idx(2) && idx(2) <= len(events)
 //@   loop 3: step several-events-for-one-key-are-all-conflicted: forall t string, s string :: (seen(3)[t][s] && !old(seen(3)[t][s])) ==> (len(get(eventMap, tuple(t, s))) > 1 ==> (len(notConflicted) == old(len(notConflicted)) && len(conflicted) == old(len(conflicted)) + len(get(eventMap, tuple(t, s))) && (forall j int :: 0 <= j && j < len(get(eventMap, tuple(t, s))) ==> conflicted[old(len(conflicted)) + j] == get(eventMap, tuple(t, s))[j])))
 //@   loop 3: step v1-a-single-event-is-unconflicted: forall t string, s string :: (seen(3)[t][s] && !old(seen(3)[t][s])) ==> ((len(get(eventMap, tuple(t, s))) == 1 && algoVersion == 1) ==> (len(conflicted) == old(len(conflicted)) && len(notConflicted) == old(len(notConflicted)) + 1 && notConflicted[old(len(notConflicted))] == get(eventMap, tuple(t, s))[0]))
+//@   loop 3: step v2-a-single-event-is-unconflicted-only-if-in-every-state-set: forall t string, s string :: (seen(3)[t][s] && !old(seen(3)[t][s])) ==> ((len(get(eventMap, tuple(t, s))) == 1 && algoVersion != 1 && mapCount(eventIDCountMap, get(eventMap, tuple(t, s))[0].EventID()) == len(stateSets)) ==> (len(conflicted) == old(len(conflicted)) && len(notConflicted) == old(len(notConflicted)) + 1))
+//@   loop 3: step v2-a-single-event-missing-from-a-state-set-is-conflicted: forall t string, s string :: (seen(3)[t][s] && !old(seen(3)[t][s])) ==> ((len(get(eventMap, tuple(t, s))) == 1 && algoVersion != 1 && mapCount(eventIDCountMap, get(eventMap, tuple(t, s))[0].EventID()) != len(stateSets)) ==> (len(notConflicted) == old(len(notConflicted)) && len(conflicted) == old(len(conflicted)) + 1))
 //@   loop 3: step earlier-results-stay: (forall j int :: 0 <= j && j < old(len(conflicted)) ==> conflicted[j] == old(conflicted[j])) && (forall j int :: 0 <= j && j < old(len(notConflicted)) ==> notConflicted[j] == old(notConflicted[j]))
 //@   loop 4: invariant 0 <= idx(4) && idx(4) <= len(list) && len(list) <= 1
 //@   loop 4: invariant idx(4) == 0 ==> (len(conflicted) == athead(3, len(conflicted)) && len(notConflicted) == athead(3, len(notConflicted)))
+//@   loop 4: invariant (idx(4) == 1 && mapCount(eventIDCountMap, list[0].EventID()) == len(stateSets)) ==> (len(conflicted) == athead(3, len(conflicted)) && len(notConflicted) == athead(3, len(notConflicted)) + 1)
+//@   loop 4: invariant (idx(4) == 1 && mapCount(eventIDCountMap, list[0].EventID()) != len(stateSets)) ==> (len(notConflicted) == athead(3, len(notConflicted)) && len(conflicted) == athead(3, len(conflicted)) + 1)
 //@   loop 4: invariant (forall j int :: 0 <= j && j < athead(3, len(conflicted)) ==> conflicted[j] == athead(3, conflicted[j])) && (forall j int :: 0 <= j && j < athead(3, len(notConflicted)) ==> notConflicted[j] == athead(3, notConflicted[j]))
 
 //@ func ResolveConflicts
